@@ -285,15 +285,16 @@ theorem appendRoot_dyadic (C : Crypto) (bs : Array Bytes) (cs : Changeset) (M J 
       ∧ (∀ n ∈ added, ∃ d o, n = nodeAt C bs d o ∧ (o + 1) * 2 ^ d = M * 2 ^ J + 2 ^ J ∧ J < d)
       ∧ (∀ d o, J < d → (o + 1) * 2 ^ d = M * 2 ^ J + 2 ^ J → nodeAt C bs d o ∈ added)
       ∧ (appendRoot C cs (nodeAt C bs J M) (iat J M)).1.length = cs.length + 2 ^ J
-      ∧ (appendRoot C cs (nodeAt C bs J M) (iat J M)).1.byteLength = cs.byteLength + (nodeAt C bs J M).length := by
+      ∧ (appendRoot C cs (nodeAt C bs J M) (iat J M)).1.byteLength = cs.byteLength + (nodeAt C bs J M).length
+      ∧ (∀ (a b : List Node) (x : Node), added = a ++ x :: b → ∀ y ∈ a, ∃ dx ox dy oy, x = nodeAt C bs dx ox ∧ y = nodeAt C bs dy oy ∧ dx < dy) := by
   have hE : M * 2 ^ J + 2 ^ J = (M + 1) * 2 ^ J := by ring
   have hlen : cs.roots.length = (rootsStack M).length := by
     have := congrArg List.length hroots
     simpa [rootsStack_mul_pow] using this
-  obtain ⟨added, top, h1, h2, h3, h4⟩ := mergeLoop_ref_eq C bs M J (cs.roots.length + 1) (nodeAt C bs J M :: cs.rnodes) (by omega)
+  obtain ⟨added, top, h1, h2, h3, h4, h5⟩ := mergeLoop_ref_eq C bs M J (cs.roots.length + 1) (nodeAt C bs J M :: cs.rnodes) (by omega)
   have hstack : (nodeAt C bs J M :: cs.roots.reverse) = nodeAt C bs J M :: ((rootsStack M).map (liftN J)).map (fun p => nodeAt C bs p.1 p.2) := by
     rw [hroots, rootsStack_mul_pow]
-  refine ⟨added, top, ?_, ?_, ?_, ?_, ?_, ?_, ?_, ?_⟩
+  refine ⟨added, top, ?_, ?_, ?_, ?_, ?_, ?_, ?_, ?_, h5⟩
   · simp only [appendRoot, hstack, h1, List.reverse_reverse]
     rw [hE, rootsStack_mul_pow]
   · simp only [appendRoot, hstack, h1]
@@ -314,6 +315,138 @@ theorem appendRoot_dyadic (C : Crypto) (bs : Array Bytes) (cs : Changeset) (M J 
 /-- the tree the changeset would give if it were committed now -/
 def vt (t : Tree) (cs : Changeset) : Tree := { t with unflushed := insertAll t.unflushed cs.nodes, length := cs.length }
 
+/-- where an element sits in a concatenation -/
+theorem split_append {α : Type} (l1 l2 a b : List α) (x : α) (h : l1 ++ l2 = a ++ x :: b) :
+    (∃ b', l1 = a ++ x :: b' ∧ b = b' ++ l2) ∨ (∃ a', a = l1 ++ a' ∧ l2 = a' ++ x :: b) := by
+  rcases List.append_eq_append_iff.mp h with ⟨a', h1, h2⟩ | ⟨c', h1, h2⟩
+  · exact Or.inr ⟨a', h1, h2⟩
+  · cases c' with
+    | nil => exact Or.inr ⟨[], by simpa using h1.symm, by simpa using h2.symm⟩
+    | cons y c'' =>
+      simp only [List.cons_append, List.cons.injEq] at h2
+      obtain ⟨rfl, rfl⟩ := h2
+      exact Or.inl ⟨c'', h1, rfl⟩
+
+/-- the changeset's node list (newest first) holds every node once, and a parent is newer than its children: the
+    order in which `byte_offset_in_changeset` can follow a block's ancestors -/
+structure Ordered (C : Crypto) (bs : Array Bytes) (rn : List Node) : Prop where
+  distinct : ∀ (a b : List Node) (x : Node), rn = a ++ x :: b → ∀ y ∈ a, y.index ≠ x.index
+  parentsNewer : ∀ (a b : List Node) (d o : Nat), rn = a ++ nodeAt C bs (d + 1) o :: b →
+    ∀ o', o' / 2 = o → nodeAt C bs d o' ∈ rn → nodeAt C bs d o' ∈ b
+
+theorem ordered_nil (C : Crypto) (bs : Array Bytes) : Ordered C bs [] :=
+  ⟨fun a b x h => by simp at h, fun a b d o h => by simp at h⟩
+
+theorem end_child_le (d o o' : Nat) (h : o' / 2 = o) : (o' + 1) * 2 ^ d ≤ (o + 1) * 2 ^ (d + 1) := by
+  rw [pow_succ2]
+  have : (o + 1) * (2 * 2 ^ d) = (2 * o + 2) * 2 ^ d := by ring
+  rw [this]
+  exact Nat.mul_le_mul_right _ (by omega)
+
+/-- one aligned block appended keeps the order -/
+theorem ordered_step (C : Crypto) (bs : Array Bytes) (rn added : List Node) (J M : Nat) (hold : Ordered C bs rn)
+    (href : ∀ x ∈ rn, ∃ d o, x = nodeAt C bs d o ∧ (o + 1) * 2 ^ d ≤ M * 2 ^ J)
+    (a5 : ∀ n ∈ added, ∃ d o, n = nodeAt C bs d o ∧ (o + 1) * 2 ^ d = M * 2 ^ J + 2 ^ J ∧ J < d)
+    (a9 : ∀ (a b : List Node) (x : Node), added = a ++ x :: b → ∀ y ∈ a, ∃ dx ox dy oy, x = nodeAt C bs dx ox ∧ y = nodeAt C bs dy oy ∧ dx < dy) :
+    Ordered C bs (added ++ nodeAt C bs J M :: rn) := by
+  have hp := pow_pos' J
+  have hEJ : (M + 1) * 2 ^ J = M * 2 ^ J + 2 ^ J := by ring
+  -- the new nodes end behind every old node
+  have hnew_old : ∀ y, (y ∈ added ∨ y = nodeAt C bs J M) → ∀ x ∈ rn, y.index ≠ x.index := by
+    intro y hy x hx e
+    obtain ⟨dx, ox, rfl, hbx⟩ := href x hx
+    rcases hy with hy | rfl
+    · obtain ⟨dy, oy, rfl, hby, _⟩ := a5 y hy
+      obtain ⟨e1, e2⟩ := index_inj _ _ _ _ (show Flat.index dy oy = Flat.index dx ox from e)
+      subst e1 e2; omega
+    · obtain ⟨e1, e2⟩ := index_inj _ _ _ _ (show Flat.index J M = Flat.index dx ox from e)
+      subst e1 e2; omega
+  have hadd_x : ∀ y ∈ added, y.index ≠ (nodeAt C bs J M).index := by
+    intro y hy e
+    obtain ⟨dy, oy, rfl, _, hd⟩ := a5 y hy
+    obtain ⟨e1, _⟩ := index_inj _ _ _ _ (show Flat.index dy oy = Flat.index J M from e)
+    omega
+  constructor
+  · intro a b x hs y hy
+    rcases split_append added (nodeAt C bs J M :: rn) a b x hs with ⟨b', h1, _⟩ | ⟨a', h1, h2⟩
+    · obtain ⟨dx, ox, dy, oy, rfl, rfl, hlt⟩ := a9 a b' x h1 y hy
+      intro e
+      obtain ⟨e1, _⟩ := index_inj _ _ _ _ (show Flat.index dy oy = Flat.index dx ox from e)
+      omega
+    · cases a' with
+      | nil =>
+        simp only [List.nil_append, List.cons.injEq] at h2
+        obtain ⟨rfl, _⟩ := h2
+        simp only [List.append_nil] at h1
+        subst h1
+        exact hadd_x y hy
+      | cons z a'' =>
+        simp only [List.cons_append, List.cons.injEq] at h2
+        obtain ⟨rfl, h2⟩ := h2
+        have hx : x ∈ rn := by rw [h2]; simp
+        rw [h1] at hy
+        rcases List.mem_append.mp hy with hy | hy
+        · exact hnew_old y (Or.inl hy) x hx
+        · rcases List.mem_cons.mp hy with rfl | hy
+          · exact hnew_old _ (Or.inr rfl) x hx
+          · exact hold.distinct a'' b x h2 y hy
+  · intro a b d o hs o' ho' hmem
+    have hchild_end := end_child_le d o o' ho'
+    -- a child that is among the new nodes ends at the new length, so its parent does too and is new as well
+    rcases split_append added (nodeAt C bs J M :: rn) a b (nodeAt C bs (d + 1) o) hs with ⟨b', h1, hb⟩ | ⟨a', h1, h2⟩
+    · -- the parent is one of the merged parents: everything newer is deeper
+      rw [hb]
+      rcases List.mem_append.mp hmem with hm | hm
+      · rw [h1] at hm
+        rcases List.mem_append.mp hm with hm | hm
+        · exfalso
+          obtain ⟨dx, ox, dy, oy, ex, ey, hlt⟩ := a9 a b' _ h1 _ hm
+          obtain ⟨e1, _⟩ := index_inj _ _ _ _ (show Flat.index (d + 1) o = Flat.index dx ox from congrArg Node.index ex)
+          obtain ⟨e2, _⟩ := index_inj _ _ _ _ (show Flat.index d o' = Flat.index dy oy from congrArg Node.index ey)
+          omega
+        · rcases List.mem_cons.mp hm with hm | hm
+          · exfalso
+            obtain ⟨e1, _⟩ := index_inj _ _ _ _ (show Flat.index d o' = Flat.index (d + 1) o from congrArg Node.index hm)
+            omega
+          · exact List.mem_append.mpr (Or.inl hm)
+      · exact List.mem_append.mpr (Or.inr hm)
+    · cases a' with
+      | nil =>
+        -- the parent is the appended node
+        simp only [List.nil_append, List.cons.injEq] at h2
+        obtain ⟨hx, rfl⟩ := h2
+        obtain ⟨e1, e2⟩ := index_inj _ _ _ _ (show Flat.index (d + 1) o = Flat.index J M from (congrArg Node.index hx).symm)
+        rcases List.mem_append.mp hmem with hm | hm
+        · exfalso
+          obtain ⟨dy, oy, ey, _, hd⟩ := a5 _ hm
+          obtain ⟨e3, _⟩ := index_inj _ _ _ _ (show Flat.index d o' = Flat.index dy oy from congrArg Node.index ey)
+          omega
+        · rcases List.mem_cons.mp hm with hm | hm
+          · exfalso
+            obtain ⟨e3, _⟩ := index_inj _ _ _ _ (show Flat.index d o' = Flat.index J M from congrArg Node.index hm)
+            omega
+          · exact hm
+      | cons z a'' =>
+        -- the parent is an old node: its children end inside the old length
+        simp only [List.cons_append, List.cons.injEq] at h2
+        obtain ⟨rfl, h2⟩ := h2
+        have hpx : nodeAt C bs (d + 1) o ∈ rn := by rw [h2]; simp
+        obtain ⟨dx, ox, ex, hbx⟩ := href _ hpx
+        obtain ⟨e1, e2⟩ := index_inj _ _ _ _ (show Flat.index (d + 1) o = Flat.index dx ox from congrArg Node.index ex)
+        subst e1 e2
+        have hin_rn : nodeAt C bs d o' ∈ rn := by
+          rcases List.mem_append.mp hmem with hm | hm
+          · exfalso
+            obtain ⟨dy, oy, ey, hby, _⟩ := a5 _ hm
+            obtain ⟨e3, e4⟩ := index_inj _ _ _ _ (show Flat.index d o' = Flat.index dy oy from congrArg Node.index ey)
+            subst e3 e4; omega
+          · rcases List.mem_cons.mp hm with hm | hm
+            · exfalso
+              obtain ⟨e3, e4⟩ := index_inj _ _ _ _ (show Flat.index d o' = Flat.index J M from congrArg Node.index hm)
+              subst e3 e4; omega
+            · exact hm
+        exact hold.parentsNewer a'' b d o h2 o' ho' hin_rn
+
 /-- the changeset holds the reference roots of the first `L` blocks, and committing it would give a closed replica
     of those blocks -/
 structure Inv (C : Crypto) (bs : Array Bytes) (t : Tree) (f : File) (cs : Changeset) (L : Nat) : Prop where
@@ -322,6 +455,7 @@ structure Inv (C : Crypto) (bs : Array Bytes) (t : Tree) (f : File) (cs : Change
   bytes : cs.byteLength = psum bs L
   closed : ClosedAt C bs L (vt t cs) f
   nodesRef : ∀ x ∈ cs.rnodes, ∃ d o, x = nodeAt C bs d o ∧ (o + 1) * 2 ^ d ≤ L
+  order : Ordered C bs cs.rnodes
 
 theorem insertAll_append (m : NMap) (a b : List Node) : insertAll m (a ++ b) = insertAll (insertAll m a) b := by
   simp [insertAll, List.foldl_append]
@@ -331,7 +465,7 @@ theorem step_inv (C : Crypto) (hC : HashWF C) (bs : Array Bytes) (t : Tree) (f :
     (h : Inv C bs t f cs (M * 2 ^ J)) :
     Inv C bs t f (appendRoot C cs (nodeAt C bs J M) (iat J M)).1 (M * 2 ^ J + 2 ^ J)
       ∧ ∃ top, (appendRoot C cs (nodeAt C bs J M) (iat J M)).2 = iat top.1 top.2 ∧ (rootsStack (M * 2 ^ J + 2 ^ J)).head? = some top := by
-  obtain ⟨added, top, a1, a2, a3, a4, a5, a6, a7, a8⟩ := appendRoot_dyadic C bs cs M J h.roots
+  obtain ⟨added, top, a1, a2, a3, a4, a5, a6, a7, a8, a9⟩ := appendRoot_dyadic C bs cs M J h.roots
   have hXe : (M + 1) * 2 ^ J = M * 2 ^ J + 2 ^ J := by ring
   have hnr : ∀ x ∈ (appendRoot C cs (nodeAt C bs J M) (iat J M)).1.rnodes, ∃ d o, x = nodeAt C bs d o ∧ (o + 1) * 2 ^ d ≤ M * 2 ^ J + 2 ^ J := by
     intro x hx
@@ -343,7 +477,7 @@ theorem step_inv (C : Crypto) (hC : HashWF C) (bs : Array Bytes) (t : Tree) (f :
     · exact ⟨J, M, rfl, Nat.le_of_eq hXe⟩
     · obtain ⟨d, o, e, hb⟩ := h.nodesRef x hx
       exact ⟨d, o, e, Nat.le_trans hb (Nat.le_add_right _ _)⟩
-  refine ⟨⟨a1, by rw [a7, h.length], ?_, ?_, hnr⟩, top, a3, a4⟩
+  refine ⟨⟨a1, by rw [a7, h.length], ?_, ?_, hnr, by rw [a2]; exact ordered_step C bs cs.rnodes added J M h.order h.nodesRef a5 a9⟩, top, a3, a4⟩
   · rw [a8, h.bytes]
     have := nodeAt_len C bs J M
     have e : (M + 1) * 2 ^ J = M * 2 ^ J + 2 ^ J := by ring
@@ -375,12 +509,36 @@ theorem head_rootsStack_odd (M J : Nat) (hM : M % 2 = 1) : (rootsStack (M * 2 ^ 
 /-- what the changeset keeps apart from roots, nodes and sizes -/
 def SameMeta (a b : Changeset) : Prop :=
   b.fork = a.fork ∧ b.origLength = a.origLength ∧ b.origFork = a.origFork ∧ b.ancestors = a.ancestors ∧ b.signature = a.signature
+    ∧ ∃ U, b.rnodes = U ++ a.rnodes
 
-theorem SameMeta.refl (a : Changeset) : SameMeta a a := ⟨rfl, rfl, rfl, rfl, rfl⟩
-theorem SameMeta.trans {a b c : Changeset} (h1 : SameMeta a b) (h2 : SameMeta b c) : SameMeta a c :=
-  ⟨h2.1.trans h1.1, h2.2.1.trans h1.2.1, h2.2.2.1.trans h1.2.2.1, h2.2.2.2.1.trans h1.2.2.2.1, h2.2.2.2.2.trans h1.2.2.2.2⟩
-theorem appendRoot_meta (C : Crypto) (cs : Changeset) (n : Node) (it : Iter) : SameMeta cs (appendRoot C cs n it).1 :=
-  ⟨rfl, rfl, rfl, rfl, rfl⟩
+theorem SameMeta.refl (a : Changeset) : SameMeta a a := ⟨rfl, rfl, rfl, rfl, rfl, [], rfl⟩
+theorem SameMeta.trans {a b c : Changeset} (h1 : SameMeta a b) (h2 : SameMeta b c) : SameMeta a c := by
+  obtain ⟨a1, a2, a3, a4, a5, U1, a6⟩ := h1
+  obtain ⟨b1, b2, b3, b4, b5, U2, b6⟩ := h2
+  exact ⟨b1.trans a1, b2.trans a2, b3.trans a3, b4.trans a4, b5.trans a5, U2 ++ U1, by rw [b6, a6, List.append_assoc]⟩
+
+/-- `mergeLoop` only puts nodes in front of the node list -/
+theorem mergeLoop_suffix (C : Crypto) : ∀ (fuel : Nat) (rroots nodes : List Node) (it : Iter),
+    ∃ U, (mergeLoop C fuel rroots nodes it).2.1 = U ++ nodes := by
+  intro fuel
+  induction fuel with
+  | zero => intro rroots nodes it; exact ⟨[], by simp [mergeLoop]⟩
+  | succ fuel ih =>
+    intro rroots nodes it
+    match rroots with
+    | [] => exact ⟨[], by simp [mergeLoop]⟩
+    | [a] => exact ⟨[], by simp [mergeLoop]⟩
+    | a :: b :: rest =>
+      simp only [mergeLoop]
+      split
+      · exact ⟨[], rfl⟩
+      · obtain ⟨U, hU⟩ := ih (⟨it.sibling.parent.index, a.length + b.length, parentHash C a b⟩ :: rest)
+          (⟨it.sibling.parent.index, a.length + b.length, parentHash C a b⟩ :: nodes) it.sibling.parent
+        exact ⟨U ++ [⟨it.sibling.parent.index, a.length + b.length, parentHash C a b⟩], by rw [hU]; simp⟩
+
+theorem appendRoot_meta (C : Crypto) (cs : Changeset) (n : Node) (it : Iter) : SameMeta cs (appendRoot C cs n it).1 := by
+  obtain ⟨U, hU⟩ := mergeLoop_suffix C (cs.roots.length + 1) (n :: cs.roots.reverse) (n :: cs.rnodes) it
+  exact ⟨rfl, rfl, rfl, rfl, rfl, U ++ [n], by simp only [appendRoot]; rw [hU]; simp⟩
 
 theorem growLoop_honest (C : Crypto) (hC : HashWF C) (bs : Array Bytes) (t : Tree) (f : File) (D O : Nat) (hO : O % 2 = 0) :
     ∀ (gs : List (Nat × Nat)) (L : Nat) (cs : Changeset) (q : NodeQueue) (tail : List Node) (fuel : Nat) (top : Nat × Nat),
@@ -921,7 +1079,7 @@ theorem inv_congr (C : Crypto) (bs : Array Bytes) (t : Tree) (f : File) (cs cs' 
     Inv C bs t f cs' L := by
   have hvt : vt t cs' = vt t cs := by simp [vt, Changeset.nodes, h2, h4]
   exact ⟨by rw [h1]; exact h.roots, by rw [h2]; exact h.length, by rw [h3]; exact h.bytes, by rw [hvt]; exact h.closed,
-    by rw [h4]; exact h.nodesRef⟩
+    by rw [h4]; exact h.nodesRef, by rw [h4]; exact h.order⟩
 
 theorem grow_upgrade_accepted (C : Crypto) (hC : HashWF C) (bs : Array Bytes) (t : Tree) (f : File) (m n : Nat) (hN : n < 2 ^ 64)
     (hm0 : 0 < m) (hmn : m < n) (fork : Nat) (pk sig : Bytes) (cs : Changeset) (hinv : Inv C bs t f cs m)
@@ -931,7 +1089,8 @@ theorem grow_upgrade_accepted (C : Crypto) (hC : HashWF C) (bs : Array Bytes) (t
       ∧ Inv C bs t f cs' n ∧ cs'.fork = fork ∧ cs'.signature = some sig ∧ cs'.upgraded = true
       ∧ cs'.origLength = cs.origLength ∧ cs'.origFork = cs.origFork ∧ cs'.ancestors = cs.ancestors
       ∧ cs'.hash = some (rootsHash C cs'.roots)
-      ∧ cs'.rnodes.length ≤ cs.roots.length + cs.rnodes.length + 2 * us.length := by
+      ∧ cs'.rnodes.length ≤ cs.roots.length + cs.rnodes.length + 2 * us.length
+      ∧ ∃ U, cs'.rnodes = U ++ cs.rnodes := by
   have hroots := inv_roots C bs t f cs m hinv
   have hrne : cs.roots ≠ [] := by
     rw [hroots, rootsAt]
@@ -966,14 +1125,14 @@ theorem grow_upgrade_accepted (C : Crypto) (hC : HashWF C) (bs : Array Bytes) (t
       omega
     | some l => exact ⟨l, rfl⟩
   obtain ⟨last, hlast⟩ := hlast
-  obtain ⟨m1, m2, m3, m4, m5⟩ := h4
+  obtain ⟨m1, m2, m3, m4, m5, m6⟩ := h4
   have hcount : st'.cs.rnodes.length ≤ cs.roots.length + cs.rnodes.length + 2 * us.length := by
     have hp := upgradeRoots_pot C _ _ _ _ h1
     unfold pot at hp
     simp only [NodeQueue.count, NodeQueue.new, List.length_map, Option.isSome_none, Bool.false_eq_true, ite_false, Nat.add_zero] at hp
     omega
   refine ⟨{ st'.cs with fork := fork, hash := some (rootsHash C st'.cs.roots), signature := some sig }, ?_,
-    inv_congr C bs t f st'.cs _ n h2 rfl rfl rfl rfl, rfl, rfl, h5, m2, m3, m4, rfl, hcount⟩
+    inv_congr C bs t f st'.cs _ n h2 rfl rfl rfl rfl, rfl, rfl, h5, m2, m3, m4, rfl, hcount, m6⟩
   unfold verifyUpgrade
   have hto : m + (n - m) = n := by omega
   simp only [andThen, hto]
@@ -1133,7 +1292,7 @@ theorem inv_changeset (C : Crypto) (bs : Array Bytes) (m : Nat) (c : Core) (d : 
   have hvt : vt c.tree c.tree.changeset = c.tree := by
     cases hc : c.tree
     simp [vt, Tree.changeset, Changeset.nodes, insertAll]
-  refine ⟨?_, h.closed.sparse.length, h.bytes, by rw [hvt]; exact h.closed, fun x hx => by simp [Tree.changeset] at hx⟩
+  refine ⟨?_, h.closed.sparse.length, h.bytes, by rw [hvt]; exact h.closed, fun x hx => by simp [Tree.changeset] at hx, ordered_nil C bs⟩
   show c.tree.roots.reverse = _
   rw [h.roots, rootsAt, ← List.map_reverse, List.reverse_reverse]
 
@@ -1149,7 +1308,7 @@ theorem growth_shape (C : Crypto) (hC : HashWF C) (bs : Array Bytes) (m n : Nat)
             events := Core.appliedEvents (honestGrowth C bs c.tree.fork m n us sig) none } := by
   have hN : n < 2 ^ 64 := by have := h.small.1; omega
   have hinv0 := inv_changeset C bs m c d held h
-  obtain ⟨cs, h1, h2, h4, h5, h7, h8, h9, h10, h11, h12⟩ := grow_upgrade_accepted C hC bs c.tree d.tree m n hN hm0 hmn c.tree.fork c.publicKey sig
+  obtain ⟨cs, h1, h2, h4, h5, h7, h8, h9, h10, h11, h12, _⟩ := grow_upgrade_accepted C hC bs c.tree d.tree m n hN hm0 hmn c.tree.fork c.publicKey sig
     c.tree.changeset hinv0 us hup hsl hver
   have hvv : verifyProof C c.tree d.tree (honestGrowth C bs c.tree.fork m n us sig) c.publicKey = .ok cs := by
     simp [honestGrowth, Tree.verifyProof, verifyTree, untrustedOf, noSeekOf, h1]
@@ -1204,7 +1363,7 @@ theorem growCore_repr (C : Crypto) (hC : HashWF C) (bs : Array Bytes) (m n : Nat
       ∧ RepRAt C bs n (growCore c cs) (d.applyAll (Oplog.appendEntry c.oplog (Core.entryOf cs none c.header).1).2) held := by
   have hN : n < 2 ^ 64 := by have := h.small.1; omega
   have hinv0 := inv_changeset C bs m c d held h
-  obtain ⟨cs, h1, h2, h4, h5, h7, h8, h9, h10, h11, h12⟩ := grow_upgrade_accepted C hC bs c.tree d.tree m n hN hm0 hmn c.tree.fork c.publicKey sig
+  obtain ⟨cs, h1, h2, h4, h5, h7, h8, h9, h10, h11, h12, _⟩ := grow_upgrade_accepted C hC bs c.tree d.tree m n hN hm0 hmn c.tree.fork c.publicKey sig
     c.tree.changeset hinv0 us hup hsl hver
   have hvv : verifyProof C c.tree d.tree (honestGrowth C bs c.tree.fork m n us sig) c.publicKey = .ok cs := by
     simp [honestGrowth, Tree.verifyProof, verifyTree, untrustedOf, noSeekOf, h1]
@@ -1299,7 +1458,7 @@ theorem apply_growth (C : Crypto) (hC : HashWF C) (bs : Array Bytes) (m n : Nat)
       ∧ (c.verifyAndApply C d (honestGrowth C bs c.tree.fork m n us sig)).core.publicKey = c.publicKey := by
   have hN : n < 2 ^ 64 := by have := h.small.1; omega
   have hinv0 := inv_changeset C bs m c d held h
-  obtain ⟨cs, h1, h2, h4, h5, h7, h8, h9, h10, _, _⟩ := grow_upgrade_accepted C hC bs c.tree d.tree m n hN hm0 hmn c.tree.fork c.publicKey sig
+  obtain ⟨cs, h1, h2, h4, h5, h7, h8, h9, h10, _, _, _⟩ := grow_upgrade_accepted C hC bs c.tree d.tree m n hN hm0 hmn c.tree.fork c.publicKey sig
     c.tree.changeset hinv0 us hup hsl hver
   have hvv : verifyProof C c.tree d.tree (honestGrowth C bs c.tree.fork m n us sig) c.publicKey = .ok cs := by
     simp [honestGrowth, Tree.verifyProof, verifyTree, untrustedOf, noSeekOf, h1]
